@@ -462,7 +462,9 @@ func (oh *ObjectHeader) isDeltaOnDisk() bool {
 // parentReader returns a [io.ReaderAt] for the decompressed contents
 // of the parent.
 func (p *Parser) parentReader(parent *ObjectHeader) (io.ReaderAt, error) {
-	if parent.content != nil && parent.content.Len() > 0 {
+	// A cached parent of size zero (the empty blob) has an empty buffer;
+	// it is still cached and must not be looked up elsewhere.
+	if parent.content != nil && (parent.content.Len() > 0 || parent.Size == 0) {
 		return bytes.NewReader(parent.content.Bytes()), nil
 	}
 
